@@ -110,9 +110,17 @@ Record jstate := {
   j_nodes : list jnode;            (* newest first: the head is tail_ *)
   j_testCount : N; j_failureCount : N; j_group : bytes;
   j_stdout : bytes;                (* stdOutput_: never reset *)
-  j_files : list (bytes * bytes)   (* files written so far, newest first *)
+  j_files : list (bytes * bytes);  (* files written so far, newest first *)
+  j_pkg : bytes;                   (* package_: whatever setPackageName stored last (empty at construction) *)
+  j_names : list bytes             (* what the createFileName calls made from outside answered, newest first *)
 }.
-Definition j_init : jstate := {| j_nodes := []; j_testCount := 0; j_failureCount := 0; j_group := []; j_stdout := []; j_files := [] |}.
+Definition j_init : jstate :=
+  {| j_nodes := []; j_testCount := 0; j_failureCount := 0; j_group := []; j_stdout := []; j_files := []; j_pkg := []; j_names := [] |}.
+
+(* calls on the output object from outside the registry's callbacks *)
+Inductive op :=
+| OSetPkg (p : bytes)       (* setPackageName(p) *)
+| OFileName (g : bytes).    (* createFileName(g); the answer is observed *)
 
 (* `esc` tells how a %s attribute value is copied: Esc after the repair of D14, Raw before it *)
 Section Writer.
@@ -150,6 +158,11 @@ Definition suite_ptree (st : jstate) : ptree :=
 
 (* writeTestGroupToFile: header line, suite, final newline *)
 Definition write_group (st : jstate) : bytes := L_xml_header ++ [10] ++ print encodeXmlText (suite_ptree st) ++ [10].
+End Writer.
+
+(* the callbacks; the package is the member read when the group is written (createFileName, writeTestCases) *)
+Section Steps.
+Variable esc : bytes -> seg.
 
 Definition junit_step (st : jstate) (e : ev) : jstate :=
   match e with
@@ -158,10 +171,10 @@ Definition junit_step (st : jstate) (e : ev) : jstate :=
       {| j_nodes := {| n_name := t_name t; n_file := t_file t; n_line := t_line t; n_ignored := t_ignored t; n_failure := None; n_checks := 0 |}
                     :: j_nodes st;
          j_testCount := j_testCount st + 1; j_failureCount := j_failureCount st; j_group := t_group t;
-         j_stdout := j_stdout st; j_files := j_files st |}
+         j_stdout := j_stdout st; j_files := j_files st; j_pkg := j_pkg st; j_names := j_names st |}
   | EPrint s =>
       {| j_nodes := j_nodes st; j_testCount := j_testCount st; j_failureCount := j_failureCount st; j_group := j_group st;
-         j_stdout := j_stdout st ++ s; j_files := j_files st |}
+         j_stdout := j_stdout st ++ s; j_files := j_files st; j_pkg := j_pkg st; j_names := j_names st |}
   | EFailure _ f l m =>
       match j_nodes st with
       | n :: r =>
@@ -171,7 +184,7 @@ Definition junit_step (st : jstate) (e : ev) : jstate :=
               {| j_nodes := {| n_name := n_name n; n_file := n_file n; n_line := n_line n; n_ignored := n_ignored n; n_failure := Some (f, l, m);
                                n_checks := n_checks n |} :: r;
                  j_testCount := j_testCount st; j_failureCount := j_failureCount st + 1; j_group := j_group st;
-                 j_stdout := j_stdout st; j_files := j_files st |}
+                 j_stdout := j_stdout st; j_files := j_files st; j_pkg := j_pkg st; j_names := j_names st |}
           end
       | [] => st      (* the code dereferences tail_ == NULL here; not reachable from the registry *)
       end
@@ -181,22 +194,67 @@ Definition junit_step (st : jstate) (e : ev) : jstate :=
           {| j_nodes := {| n_name := n_name n; n_file := n_file n; n_line := n_line n; n_ignored := n_ignored n; n_failure := n_failure n;
                            n_checks := c |} :: r;
              j_testCount := j_testCount st; j_failureCount := j_failureCount st; j_group := j_group st;
-             j_stdout := j_stdout st; j_files := j_files st |}
+             j_stdout := j_stdout st; j_files := j_files st; j_pkg := j_pkg st; j_names := j_names st |}
       | [] => st
       end
   | EGroupEnd =>    (* writeTestGroupToFile(); resetTestGroupResult() *)
       {| j_nodes := []; j_testCount := 0; j_failureCount := 0; j_group := [];
-         j_stdout := j_stdout st; j_files := (createFileName pkg (j_group st), write_group st) :: j_files st |}
+         j_stdout := j_stdout st;
+         j_files := (createFileName (j_pkg st) (j_group st), write_group esc (j_pkg st) st) :: j_files st;
+         j_pkg := j_pkg st; j_names := j_names st |}
   end.
 
-Definition run_with (ts : list test) : list (bytes * bytes) := rev (j_files (fold_left junit_step (events_of ts) j_init)).
-End Writer.
+Definition op_step (st : jstate) (o : op) : jstate :=
+  match o with
+  | OSetPkg p =>
+      {| j_nodes := j_nodes st; j_testCount := j_testCount st; j_failureCount := j_failureCount st; j_group := j_group st;
+         j_stdout := j_stdout st; j_files := j_files st; j_pkg := p; j_names := j_names st |}
+  | OFileName g =>
+      {| j_nodes := j_nodes st; j_testCount := j_testCount st; j_failureCount := j_failureCount st; j_group := j_group st;
+         j_stdout := j_stdout st; j_files := j_files st; j_pkg := j_pkg st; j_names := createFileName (j_pkg st) g :: j_names st |}
+  end.
 
-Record scenario := { s_pkg : bytes; s_tests : list test }.
-Definition obs := list (bytes * bytes).       (* (file name, content) in the order the files were opened *)
-Definition run (s : scenario) : obs := run_with Esc (s_pkg s) (s_tests s).
-Definition run_old (s : scenario) : obs := run_with Raw (s_pkg s) (s_tests s).   (* the code before the repair of D14 *)
-Definition valid (s : scenario) : bool := oktext (s_pkg s) && forallb oktest (s_tests s).
+(* what happens to the output object, in order: callbacks of the registry and calls from outside *)
+Inductive jev := JE (e : ev) | JOp (o : op).
+Definition jstep (st : jstate) (x : jev) : jstate := match x with JE e => junit_step st e | JOp o => op_step st o end.
+End Steps.
+
+(* a test together with the outside calls made just before its printCurrentTestStarted callback *)
+Definition otest := (list op * test)%type.
+
+(* the for loop of runAllTests (C16_Events.reg_loop) with the outside calls put in front of each test's callbacks *)
+Fixpoint oreg_loop (groupStart : bool) (ts : list otest) : list jev :=
+  match ts with
+  | [] => []
+  | (ops, t) :: rest =>
+      (if groupStart then [JE (EGroupStart t)] else []) ++ map JOp ops ++ map JE (test_events t) ++
+      (if end_of_group t (map snd rest) then JE EGroupEnd :: oreg_loop true rest else oreg_loop false rest)
+  end.
+(* post: calls made after runAllTests returned *)
+Definition jevents_of (ts : list otest) (post : list op) : list jev := oreg_loop true ts ++ map JOp post.
+
+Definition obs := (list (bytes * bytes) * list bytes)%type.   (* (file name, content) in the order the files were opened;
+                                                                 answers of the createFileName calls in call order *)
+Definition run_with (esc : bytes -> seg) (ts : list otest) (post : list op) : obs :=
+  let st := fold_left (jstep esc) (jevents_of ts post) j_init in (rev (j_files st), rev (j_names st)).
+
+Record scenario := { s_tests : list otest; s_post : list op }.
+Definition run (s : scenario) : obs := run_with Esc (s_tests s) (s_post s).
+Definition run_old (s : scenario) : obs := run_with Raw (s_tests s) (s_post s).   (* the code before the repair of D14 *)
+Definition okop (o : op) : bool := match o with OSetPkg p => oktext p | OFileName g => oktext g end.
+Definition okotest (x : otest) : bool := forallb okop (fst x) && oktest (snd x).
+Definition valid (s : scenario) : bool := forallb okotest (s_tests s) && forallb okop (s_post s).
+
+(* property-level reading: maximal runs of consecutive tests with the same group name, outside calls kept with their test *)
+Fixpoint osegments (ts : list otest) : list (list otest) :=
+  match ts with
+  | [] => []
+  | t :: rest =>
+      match osegments rest with
+      | (n :: g) :: gs => if bytes_eqb (t_group (snd t)) (t_group (snd n)) then (t :: n :: g) :: gs else [t] :: (n :: g) :: gs
+      | _ => [[t]]
+      end
+  end.
 
 (* ------------------------------------------------------------------------------------------------------------
    XML parser for the subset the writer can emit: optional XML declaration, elements, attributes in single or double
@@ -474,17 +532,44 @@ Definition expected_filename (pkg group : bytes) : bytes :=
   map (fun c => if existsb (N.eqb c) junit_forbidden then 95 else c)
       (lit_cpputest_ ++ (match pkg with [] => [] | _ => pkg ++ [95] end) ++ group) ++ lit_dotxml.
 
-Fixpoint spec_groups (pkg : bytes) (gs : list (list test)) (printed : bytes) (files : obs) : bool :=
-  match gs, files with
-  | [], [] => true
-  | g :: gs', (fn, content) :: fs' =>
-      let printed' := printed ++ tests_printed g in
-      bytes_eqb fn (expected_filename pkg (group_name g))
-      && match xml_parse content with Some t => suite_ok g printed' (tests_printed g) t | None => false end
-      && spec_groups pkg gs' printed' fs'
-  | _, _ => false
+(* the package at a time = the argument of the latest setPackageName before that time (empty if none).  ops_expect walks
+   the outside calls: every createFileName answer must be the name built from the package of that moment; it returns the
+   package afterwards and the answers not yet consumed. *)
+Fixpoint ops_expect (pkg : bytes) (ops : list op) (names : list bytes) : option (bytes * list bytes) :=
+  match ops with
+  | [] => Some (pkg, names)
+  | OSetPkg p :: r => ops_expect p r names
+  | OFileName g :: r =>
+      match names with
+      | n :: names' => if bytes_eqb n (expected_filename pkg g) then ops_expect pkg r names' else None
+      | [] => None
+      end
   end.
-Definition spec (s : scenario) (o : obs) : bool := spec_groups (s_pkg s) (segments (s_tests s)) [] o.
+
+(* the file of a group is named after the package in force when the group ends (= when the file is written) *)
+Fixpoint spec_groups (pkg : bytes) (gs : list (list otest)) (post : list op) (printed : bytes)
+                     (files : list (bytes * bytes)) (names : list bytes) : bool :=
+  match gs with
+  | [] => match files with
+          | [] => match ops_expect pkg post names with Some (_, []) => true | _ => false end
+          | _ => false
+          end
+  | og :: gs' =>
+      match files with
+      | (fn, content) :: fs' =>
+          match ops_expect pkg (flat_map fst og) names with
+          | Some (pkg', names') =>
+              let g := map snd og in
+              let printed' := printed ++ tests_printed g in
+              bytes_eqb fn (expected_filename pkg' (group_name g))
+              && match xml_parse content with Some t => suite_ok g printed' (tests_printed g) t | None => false end
+              && spec_groups pkg' gs' post printed' fs' names'
+          | None => false
+          end
+      | [] => false
+      end
+  end.
+Definition spec (s : scenario) (o : obs) : bool := spec_groups [] (osegments (s_tests s)) (s_post s) [] (fst o) (snd o).
 
 (* acceptance only (used to compare the parser with an independent one on arbitrary byte strings) *)
 Definition xml_accepts (s : bytes) : bool := match xml_parse s with Some _ => true | None => false end.
@@ -538,6 +623,17 @@ Definition jnode_of (t : test) : jnode :=
      n_checks := if t_ignored t then 0 else snd (body_events t (t_body t)) |}.
 Definition group_state (g : list test) (printed : bytes) (files : list (bytes * bytes)) : jstate :=
   {| j_nodes := rev (map jnode_of g); j_testCount := N.of_nat (length g); j_failureCount := count_failed g;
-     j_group := group_name g; j_stdout := printed ++ tests_printed g; j_files := files |}.
+     j_group := group_name g; j_stdout := printed ++ tests_printed g; j_files := files; j_pkg := []; j_names := [] |}.
+(* (write_group / suite_ptree take the package as an argument and do not read j_pkg, j_names, j_files) *)
+
+(* statement level: the package after a list of outside calls, and what the createFileName calls among them answer *)
+Fixpoint ops_pkg (pkg : bytes) (ops : list op) : bytes :=
+  match ops with [] => pkg | OSetPkg p :: r => ops_pkg p r | OFileName _ :: r => ops_pkg pkg r end.
+Fixpoint ops_names (pkg : bytes) (ops : list op) : list bytes :=
+  match ops with
+  | [] => []
+  | OSetPkg p :: r => ops_names p r
+  | OFileName g :: r => expected_filename pkg g :: ops_names pkg r
+  end.
 (* tree_of: the report of group g *)
 Definition tree_of (pkg : bytes) (g : list test) (printed : bytes) : node := erase (suite_ptree Esc pkg (group_state g printed [])).
